@@ -16,6 +16,7 @@ let () = iter_lines (fun line ->
   let buf = Buffer.create 256 in
   let c = ref h2_init in
   let started = ref false in
+  let nrst = ref 0 in
   (try
     List.iteri (fun k tok ->
       if k > 0 then Buffer.add_char buf ' ';
@@ -36,6 +37,9 @@ let () = iter_lines (fun line ->
                  EvHeaders (n_of_int (int_of_string a.(1)), z_of_string (String.sub a.(4) 2 (String.length a.(4) - 2)))
         | "W" -> EvWU (n_of_int (int_of_string a.(1)), z_of_string a.(2))
         | "G" -> EvPing
+        | "R" -> if Array.length a <> 3 then raise Oracle;
+                 incr nrst; if !nrst > 15 then raise Oracle;      (* the rapid-reset guard (GOAWAY after 17 quick resets) is outside the model *)
+                 EvRst (n_of_int (int_of_string a.(1)))
         | _ -> raise Oracle in
       if not !started then raise Oracle;
       (match step !c ev with
